@@ -143,7 +143,37 @@ def cmp_wirein(prop, case, impl, model):
                 out.append(('violation', 'wire-in:close-reply-differs', 'close frames written %s, reference %s' % ([x[:40] for x in ir if x.startswith('8:')], [x[:40] for x in mr if x.startswith('8:')])))
     return out
 
+def cmp_close(prop, case, impl, model):
+    if 'PANIC' in impl:
+        return [('violation', 'close:panic', 'the library panicked: ' + impl['PANIC'][:300])]
+    if 'hang' in impl:
+        return [('violation', 'close:hang', impl['hang'])]
+    if 'dialerr' in impl or 'modelerror' in model:
+        return [('disagree', 'close:setup', str(impl.get('dialerr')) + ' ' + str(model.get('modelerror'))[:200])]
+    out = []
+    steps = case.get('steps', '').split('|')
+    ir, mr = impl.get('res', '').split(','), model.get('res', '').split(',')
+    ic, mc = impl.get('closes', ''), model.get('closes', '')
+    # error closes (1002 after a malformed peer Close) carry a reason text the model does not predict: compare the code
+    def norm_closes(x):
+        return [c[:4] if len(c) > 4 and c[:4] == '03ea' else c for c in x.split(',')]
+    if prop == 'C16' or True:
+        if impl.get('dataafterclose', '0') != '0':
+            out.append(('violation', 'close:data-after-close', 'a data frame followed the Close frame'))
+        if len([c for c in ic.split(',') if c != 'none']) > 1:
+            out.append(('violation', 'close:second-close-frame', 'more than one Close frame was written: ' + ic[:200]))
+    if norm_closes(ic) != norm_closes(mc) and not out:
+        out.append(('violation', 'close:frames', 'Close frames written %s, expected %s' % (ic[:200], mc[:200])))
+    for k, (a, b) in enumerate(zip(ir, mr)):
+        if a != b:
+            out.append(('violation', 'close:result:%s' % steps[k].split('~')[0], 'step %d (%s) returned %s, expected %s' % (k, steps[k][:40], a, b)))
+            break
+    if impl.get('status') != model.get('status') and 'peerclose' in case.get('steps', ''):
+        out.append(('violation', 'close:status', 'CloseStatus %s, expected %s' % (impl.get('status'), model.get('status'))))
+    return out
+
 COMPARE = {
+    'close': cmp_close,
     'wire-in': cmp_wirein,
     'mask': cmp_mask,
     'wire-out': cmp_wireout,
@@ -179,6 +209,20 @@ READER_TRUST = ['Reader model hand-written from read.go / frame.go / close.go; t
                 'bufio.Reader / io.ReadFull deliver the concatenation of what arrives independent of chunking (assumed; every case is run with a scripted chunking)']
 
 PROPS = {
+    'C06': dict(
+        suites=['close', 'wire-out'],
+        rule='close suite: Close(code, reason) for every boundary of the status-code ranges (all 65536 codes in the thorough tier) x reason lengths {0,1,122,123,124,130} and random '
+             'codes/lengths against an echoing raw peer, peer-initiated Close frames with every payload shape (valid codes, invalid codes, empty, one byte, after a message), '
+             'every order of Close/CloseNow triples, each followed by a random sequence of Write/Writer/Read/Ping/Close/CloseNow; plus the wire-out programs. '
+             'non-trivial = every case (each has >= 2 steps); distinct = distinct case line',
+        trusted=COMMON_TRUSTED + ['valid_wire_code is TRANSLATED from close.go on every run (Gen/CloseCode.v); CloseSM is a hand-written state machine tied by the close suite'],
+        assumptions=['the raw peer echoes at once; bounded-time behaviour against silent peers is C09'],
+        level_text='Theorems: the translated validWireCloseCode is exactly the RFC/IANA table on all of Z; close payload codec round-trips; refused codes/reasons are never sent and Close errors; '
+                   '1005 sends an empty payload; a valid handshake writes exactly that Close frame and returns nil; a received Close is echoed with the same code and reason and reported as such; '
+                   'after Close/CloseNow returned every later call fails and Close/CloseNow match net.ErrClosed (for every later history).',
+        level_note='CloseSM abstracts the handshake to its API-visible outcomes; timing and concurrency of the handshake are C09/C05/C16.',
+        technique='Go->Gallina translation of validWireCloseCode + Coq proofs (all of Z; induction over histories) + differential run against a scripted raw peer',
+    ),
     'C03': dict(
         suites=['wire-in'], rule=WIREIN_RULE, trusted=COMMON_TRUSTED + READER_TRUST + [FLATE_ASSUME],
         assumptions=[FLATE_ASSUME, 'panics inside the Go standard library on hostile input are covered by the correspondence run only (any panic is an observation no model run produces)'],
